@@ -173,6 +173,33 @@ def run_dchain(side: H.Side, desc: dict):
     return attempts, findings
 
 
+def run_dbl(side: H.Side, desc: dict):
+    """A peer that negotiates the same download twice at once (two PeerTransferRequest back to back, a file
+    connection per ticket, both serving honest bytes).  desc: {'src': [seed, n], 'local0': m | None, 'plan': {...}}.
+    The property must hold whatever the peer does: the file stays a prefix of the remote file, COMPLETE only
+    with the identical file; a second negotiation of the same transfer must not start."""
+    seed, n = desc['src']
+    src = pat(seed, n)
+    l0 = desc.get('local0')
+    tr = side.new_download(src[:l0] if l0 is not None else None)
+    findings = []
+    wit = {'kind': 'dd', 'desc': desc}
+    try:
+        o = side.download_double(tr, src, desc.get('plan', {}))
+    finally:
+        side.forget(tr)
+    after = o['after']
+    if after != src[:len(after)]:
+        findings.append(Finding('double-negotiation-file-not-prefix', f'two negotiations of one download at once: the local file ({len(after)} B) is not a prefix of the '
+                                f'remote file ({n} B)', wit, observed=len(after), expected=f'prefix of {n}'))
+    if o['state'] == 'COMPLETE' and after != src:
+        findings.append(Finding('double-negotiation-complete-but-file-differs', f'two negotiations of one download at once: COMPLETE with a {len(after)} B file that differs from '
+                                f'the remote file ({n} B)', wit, observed=len(after), expected=n))
+    if o['state'] in ('DOWNLOADING', 'INITIALIZING') and not o['pending']:
+        findings.append(Finding('double-negotiation-left-in-processing-state', f'ended {o["state"]} with no task', wit, observed=o['state'], expected='terminal state'))
+    return o, findings
+
+
 def ustate_code(o) -> int:
     st = o['state']
     if st == 'COMPLETE':
@@ -203,7 +230,7 @@ def run_ucase(side: H.Side, desc: dict):
     else:
         ob = struct.pack('<Q', off)
     o = side.upload_attempt(src, fsz, ob, kbps=desc.get('kbps', 0), cut=desc.get('cut'), peer_closes=desc.get('pc', True),
-                            close_kind=desc.get('close', 'eof'), osplit=desc.get('osplit'))
+                            close_kind=desc.get('close', 'eof'), osplit=desc.get('osplit'), msg_mode=desc.get('msg'))
     findings = []
     wit = {'kind': 'u', 'desc': desc}
     o_int = off if isinstance(off, int) else None
@@ -216,7 +243,11 @@ def run_ucase(side: H.Side, desc: dict):
         if o_int is None or wire != expect_tail or not desc.get('pc', True) or o_int + len(wire) != fsz:
             findings.append(Finding('upload-complete-unsound', 'upload COMPLETE although not every byte from the offset was sent / peer did not close', wit,
                                     observed=len(wire), expected=len(expect_tail)))
-    if o['state'] == 'UPLOADING' and not o['stuck']:
+    if o['state'] == 'UPLOADING' and o['failmsg']:
+        findings.append(Finding('upload-UPLOADING-after-reported-failure', 'the file connection failed (PeerUploadFailed was attempted) but the upload is still UPLOADING: '
+                                f'the notification {"raised" if o["exc"] else "is still pending"} and the state change never happened; the slot stays taken and '
+                                're-queue requests of the downloader are ignored', wit, observed=f'UPLOADING (exc={o["exc"]}, task pending={o["stuck"]})', expected='FAILED'))
+    elif o['state'] == 'UPLOADING' and not o['stuck']:
         if o_int is not None and o_int >= 2 ** 63 and o['exc'] == 'ValueError':
             findings.append(Finding(K_F13C, 'offset >= 2^63 from the downloader: seek raises ValueError (not OSError), the upload stays UPLOADING with no task '
                                     'and keeps its slot', wit, observed='UPLOADING, task dead', expected='FAILED'))
@@ -224,7 +255,7 @@ def run_ucase(side: H.Side, desc: dict):
             findings.append(Finding('upload-left-in-processing-state', f'upload ended in UPLOADING (exc={o["exc"]})', wit, observed='UPLOADING', expected='terminal state'))
     m = len(wire)
     att = {'src': [seed, n], 'fsz': fsz, 'off': o_int, 'grant': H.GRANT_UNLIMITED if desc.get('kbps', 0) == 0 else H.GRANT_LIMITED,
-           'cut': desc.get('cut'), 'pc': desc.get('pc', True), 'osp': desc.get('osplit'),
+           'cut': desc.get('cut'), 'pc': desc.get('pc', True), 'osp': desc.get('osplit'), 'msg_ok': desc.get('msg') is None,
            'exp': (ustate_code(o), [seed, n, min(o_int or 0, n), m], o['bt'], o['failmsg']), 'state': o['state']}
     return att, findings
 
@@ -339,7 +370,7 @@ def coq_ucases(rows):
     items = []
     for cid, a in rows:
         st, wsp, bt, fm = a['exp']
-        items.append(f' ({cid}, ({a["src"][0]}, {a["src"][1]}), {a["fsz"]}, {optz(a["off"])}, {a.get("osp") or 0}, {a["grant"]}, {optz(a["cut"])}, '
+        items.append(f' ({cid}, ({a["src"][0]}, {a["src"][1]}), {a["fsz"]}, {optz(a["off"])}, {a.get("osp") or 0}, {"true" if a.get("msg_ok", True) else "false"}, {a["grant"]}, {optz(a["cut"])}, '
                      f'{"true" if a["pc"] else "false"}, ({st}, {spec_(wsp)}, {bt}, {"true" if fm else "false"}))')
     out.append(';\n'.join(items))
     out.append('].\nEval vm_compute in (bad_u cases).\n')
@@ -510,6 +541,12 @@ def gen_ucases(run: Run):
             off = rng.choice([0, 0, n // 3])
             out.append({'src': [rng.randrange(251), n], 'fsz': 'src', 'off': off, 'kbps': gen_kbps(rng), 'cut': cut, 'pc': rng.random() < 0.8,
                         'close': 'eof'})
+    # the file connection breaks AND the message connection is broken / slow / gone as well: the failure
+    # notification itself fails
+    for n, cut in [(20000, 8192), (20000, 0), (300, 0), (24581, 16384)]:
+        for msg in ('raise', 'hang', 'peer-gone'):
+            out.append({'src': [rng.randrange(251), n], 'fsz': 'src', 'off': rng.choice([0, 5]), 'kbps': rng.choice([0, 20]), 'cut': cut,
+                        'pc': rng.random() < 0.5, 'close': 'eof', 'msg': msg})
     # the 8 offset bytes arrive in two segments: every split position, offsets with several non-zero bytes
     for n, off, sps in [(1000, 258, range(1, 8)), (1000, 513, (1, 4)), (66100, 66051, (1, 2, 3))]:
         for sp in sps:
@@ -531,6 +568,16 @@ def gen_ucases(run: Run):
         elif kind == 'stuck':
             d['pc'] = False
         out.append(d)
+    return out
+
+
+def gen_dbl(run: Run):
+    rng = run.rng
+    out = []
+    for n in [1, 129, 300, 8193] + ([3 * 8192 + 5] if run.tier != 'quick' else []):
+        for plan in ({'first': n // 3}, {'first': n // 3, 'open_b_first': True}, {'first': 0, 'order': 'BA'}, {'first': n, 'order': 'AB'},
+                     {'first': rng.randrange(0, n + 1), 'order': rng.choice(['AB', 'BA']), 'open_b_first': rng.random() < 0.5}):
+            out.append({'src': [rng.randrange(251), n], 'local0': rng.choice([None, None, 0, n // 2]), 'plan': plan})
     return out
 
 
@@ -573,6 +620,8 @@ def run_witness(side, wit):
         return run_dchain(side, wit['desc'])[1]
     if kind == 'u':
         return run_ucase(side, wit['desc'])[1]
+    if kind == 'dd':
+        return run_dbl(side, wit['desc'])[1]
     if kind == 'p':
         import asyncio
         try:
@@ -588,7 +637,8 @@ def run(run: Run):
                 'resumed local files (empty / partial / already complete), delivery segmentations (one piece, byte by byte, grant-1/grant/grant+1, random), '
                 'unlimited and limited (128-byte grants) downloads; dishonest senders (fewer/more bytes than announced, bytes after a complete local file, '
                 'no size, huge size, offset not sendable); (b) upload attempts: offsets 0..n+1000 and >= 2^63, no/partial offset, write failures after k bytes, '
-                'peer closing by EOF/reset/never, wrong announced size; (c) two real clients with cuts on the file connection. '
+                'peer closing by EOF/reset/never, wrong announced size, the 8 offset bytes split at every position, the failure notification raising / hanging / peer gone; '
+                '(b2) one download negotiated twice at once (two requests back to back, a file connection per ticket, overlapping receptions); (c) two real clients with cuts on the file connection. '
                 'distinct = distinct case description; non-trivial = at least one fault/dishonesty or more than one read')
     run.trusted += ['aiofiles runs on the inline executor of vlib.vloop (no thread interleavings)',
                     'fake transport: a write is delivered at once and completely (infinite send buffer); write failures at chunk granularity']
@@ -664,6 +714,17 @@ def run(run: Run):
                 run.add_finding(f)
             run.case(desc, kind='u')
             urows.append((cid, att))
+
+        # 3b. one download negotiated twice at once
+        for desc in gen_dbl(run):
+            try:
+                _, fs = run_dbl(side, desc)
+            except Exception as e:
+                run.add_finding(Finding('double-negotiation-harness-exception', f'{type(e).__name__}: {e}', {'kind': 'dd', 'desc': desc}))
+                continue
+            for f in fs:
+                run.add_finding(f)
+            run.case(desc, kind='dd')
         unhandled = [str(c.get('exception') or c.get('message'))[:160] for c in side.loop.unhandled]
     finally:
         side.close()
